@@ -86,7 +86,40 @@ def array_check(case):
                 break
         if not np.array_equal(cind, np.tile(exp_c, (samples.size, 1))):
             seen.setdefault("array:channels", "returned channel indices differ from the neighbourhood of the peak channel")
-    return Res(list(seen.items()), o=(fam, radius), tr=2)
+    # the two ways of naming the padding (pad_val = number of channels, or -1 = "the last row") x the two ways of supplying the NaN row
+    # (added by the call, or already carried by the array): the same waveforms
+    ncomb = 0
+    sub = samples[:: max(1, samples.size // 25)]
+    dfs = pd.DataFrame({"sample": sub, "peak_channel": np.full(sub.size, pc)})
+    exp_c = np.r_[ref_rows[pc], np.full(width - len(ref_rows[pc]), nc)]
+    for pad in (None, -1):
+        try:
+            nbp = utils.make_channel_index(xy, radius=radius) if pad is None else utils.make_channel_index(xy, radius=radius, pad_val=pad)
+        except Exception as e:
+            seen.setdefault("neighbours:pad:exc", "make_channel_index(pad_val=%r): %s: %s" % (pad, type(e).__name__, e))
+            continue
+        padded = np.r_[np.zeros(len(ref_rows[pc]), bool), np.ones(width - len(ref_rows[pc]), bool)]
+        if nbp.shape != (nc, width) or not np.array_equal(nbp[pc][~padded], ref_rows[pc]) or not np.all(nbp[pc][padded] == (nc if pad is None else pad)):
+            seen.setdefault("neighbours:pad", "make_channel_index(radius=%r, pad_val=%r) row %d is %r" % (radius, pad, pc, nbp[pc].tolist() if nbp.ndim == 2 else None))
+            continue
+        for add in (True, False):
+            src = arr.copy() if add else arrn.copy()
+            try:
+                w2, c2, _ = wx.extract_wfs_array(src, dfs, nbp, trough_offset=TROUGH, spike_length_samples=LENGTH, add_nan_trace=add)
+            except Exception as e:
+                seen.setdefault("array:options:exc", "extract_wfs_array(pad_val=%r index, add_nan_trace=%r): %s: %s" % (pad, add, type(e).__name__, e))
+                continue
+            ncomb += 1
+            good = w2.shape == (sub.size, width, LENGTH)
+            if good:
+                for i, sp in enumerate(sub):
+                    if not np.array_equal(w2[i], arrn[exp_c][:, sp - TROUGH:sp - TROUGH + LENGTH], equal_nan=True):
+                        good = False
+                        break
+            if not good:
+                seen.setdefault("array:options", "peak channel %d radius %r: channel index padded with %s and add_nan_trace=%r (NaN row %s): the waveforms differ from the source windows "
+                                "with NaN on the padded slots" % (pc, radius, "the number of channels" if pad is None else pad, add, "added by the call" if add else "carried by the array"))
+    return Res(list(seen.items()), o=(fam, radius), tr=2 + ncomb)
 
 
 # ------------------------------------------------------------------ table level
@@ -279,8 +312,8 @@ def _recording(d, fam, ns, nsites=40, mult=31):
     return fbin, cal, xy_sorted
 
 
-def _spike_train(ns, chunks, nsites, variant):
-    """spikes at the margins, on chunk boundaries of every chunk size, duplicates across units"""
+def _spike_train(ns, chunks, nsites, variant, gap=None):
+    """spikes at the margins, on chunk boundaries of every chunk size, duplicates across units; gap = (start, stop): no spike in that stretch (whole chunks without a spike)"""
     times = {TROUGH - 1, TROUGH, TROUGH + 1, ns - (LENGTH - TROUGH) - 1, ns - (LENGTH - TROUGH), ns - 1}
     for c in chunks:
         for k in range(1, ns // c + 1):
@@ -290,6 +323,8 @@ def _spike_train(ns, chunks, nsites, variant):
                     times.add(t)
     rng = np.random.default_rng(variant)
     times |= set(int(x) for x in rng.integers(0, ns, 25))
+    if gap is not None:
+        times = {t for t in times if not (gap[0] <= t < gap[1])}
     spikes = []
     for j, t in enumerate(sorted(times)):
         spikes.append((t, j % 3, (j * 7 + variant) % nsites))
@@ -383,15 +418,20 @@ def file_cases(tier, seed):
         for ns in ((2400, 2100, 2128, 2587) if tier == "quick" else (2400, 2100, 2090, 2128, 2129, 2587, 2086, 2087, 3001, 3100)):
             for max_wf in (2, 5, 1000):
                 out.append((fam, ns, max_wf, list(chunks)))
+        # silent stretches longer than a chunk: at the start (the first chunk that holds spikes is not the first chunk of the file), in the middle, at the end
+        for gap in ((0, 1000), (600, 1600), (1500, 2400)):
+            for max_wf in (5, 1000):
+                out.append((fam, 2400, max_wf, list(chunks), gap))
     return out
 
 
 def file_check(case):
-    fam, ns, max_wf, chunks = case
+    fam, ns, max_wf, chunks = case[:4]
+    gap = case[4] if len(case) > 4 else None
     d = os.path.join(synth.proc_scratch(), "c13_%s_%d_%d" % (fam, ns, max_wf))
     os.makedirs(d, exist_ok=True)
     fbin, cal, xy = _recording(d, fam, ns)
-    spikes = _spike_train(ns, chunks, 40, variant=max_wf % 7)
+    spikes = _spike_train(ns, chunks, 40, variant=max_wf % 7, gap=gap)
     seen = {}
     ntr = 0
     ref_files = None
@@ -419,7 +459,7 @@ def file_check(case):
         outcome = None
         for oi, order in enumerate(orders):
             out = os.path.join(d, "out")
-            ctx = "%s ns=%d max_wf=%d chunk=%d order=%r" % (fam, ns, max_wf, chunk, list(order))
+            ctx = "%s ns=%d max_wf=%d%s chunk=%d order=%r" % (fam, ns, max_wf, "" if gap is None else " no spike in [%d, %d)" % gap, chunk, list(order))
             try:
                 sm = _run_extract(fbin, out, spikes, max_wf, chunk, list(order), seed=3)
                 ntr += 1
@@ -465,7 +505,7 @@ def file_check(case):
         raise
     except Exception as e:
         seen.setdefault("file:exc:%s" % type(e).__name__, "%s: %s: %s" % (ctx, type(e).__name__, e))
-    return Res(list(seen.items()), o=(fam, max_wf, mode), tr=ntr)
+    return Res(list(seen.items()), o=(fam, max_wf, mode, gap), tr=ntr)
 
 
 def many_cases(tier, seed):
